@@ -146,6 +146,7 @@ proof fn lemma_flat2(x: Seq<char>, y: Seq<char>)
 //@rule R25
 //@rule R23
 //@rule R24
+#[verifier::loop_isolation(false)]
 fn corrupt_whitespace(iw_p: f64, dw_p: f64, use_graphemes: bool, text: &str, info: &TextDataInfo) -> (res: VtResult<String>)
     requires
         // the constructor's own domain assertion (at least one probability is positive after clamping)
